@@ -523,7 +523,7 @@ func rulesC10(p *Prog, r *Report) {
 	// The posted price falls linearly in the time since the CURRENT round started: every elapsed
 	// time in the auction modules is measured from the auction record's own StartTime (which a
 	// restart refreshes), not from the liquidation time or any other timestamp.
-	r.Rule("R10.10", "elapsed auction time is measured from the auction record's StartTime", 3)
+	r.Rule("R10.10", "elapsed auction time is measured from the auction record's StartTime", 2)
 	for _, fn := range p.Funcs {
 		m := moduleOf(fn)
 		if (m != "auction" && m != "auctionsV2") || p.isAuxFn(fn) {
@@ -542,7 +542,7 @@ func rulesC10(p *Prog, r *Report) {
 			r.Instance("R10.10")
 			r.FuncsSeen[fname(fn)] = true
 			construct := fmt.Sprintf("%s elapsed time #%d", fname(fn), n)
-			if p.fromRecordFieldsLoose(call.Call.Args[1], map[string]bool{"DutchAuction": true, "Auction": true}, map[string]bool{"StartTime": true}) {
+			if p.fromRecordFieldsUp(call.Call.Args[1], map[string]bool{"DutchAuction": true, "Auction": true}, map[string]bool{"StartTime": true}) {
 				r.OK("R10.10", construct, "measured from the auction's StartTime", p.instrPos(call))
 			} else {
 				r.Fail("R10.10", construct, "the time the price has been falling is not measured from the auction's own StartTime: after a restart the posted price leaves the band between the round's start and end price", p.instrPos(call), nil)
@@ -598,7 +598,7 @@ func rulesC10(p *Prog, r *Report) {
 					continue
 				}
 				op, recv, sub, isAS := addSubOf(alt)
-				if !isAS || op != "Sub" || !p.fromRecordFieldsLoose(recv, map[string]bool{"DutchAuction": true}, map[string]bool{"InflowTokenTargetAmount": true, "InflowTokenCurrentAmount": true}) {
+				if !isAS || op != "Sub" || !p.fromRecordFieldsUp(recv, map[string]bool{"DutchAuction": true}, map[string]bool{"InflowTokenTargetAmount": true, "InflowTokenCurrentAmount": true}) {
 					okAll = false
 					continue
 				}
